@@ -36,6 +36,8 @@ def literal_of(v):
     t = v["t"]
     if t == "int":
         return J.Const(v["n"]) if v["n"] >= 0 else J.Neg(J.Const(-v["n"]))
+    if t == "float":
+        return J.Const(J.float_of(v)) if v["n"] >= 0 else J.Neg(J.Const(-J.float_of(v)))
     if t == "bool": return J.Const(v["b"])
     if t == "none": return J.Const(None)
     if t == "str":
@@ -58,13 +60,17 @@ def subst(node, env):
     return {k: subst(v, env) for k, v in node.items()}
 
 
-def inline_case(case, di, new_id):
+def inline_case(case, di, new_id, rnd=None):
+    """B: the data of assignment #di written into the program as literals -- all of it, or (with rnd) a random
+    half of the names, which gives partially constant expressions such as `(-0.75) ** e2`."""
     d = case["datas"][di - 1]
     stored = stored_names(case["tpls"])
     env = {}
     rest = {}
     for n, v in d.items():
         lit = literal_of(v) if n not in stored and n not in ("loop", "self", "super", "caller", "varargs", "kwargs") else None
+        if lit is not None and rnd is not None and rnd.random() < 0.5:
+            lit = None
         if lit is None:
             rest[n] = v
         else:
@@ -136,6 +142,23 @@ def position_family(start_id):
     return out
 
 
+def partial_family(start_id):
+    """Deterministic family: a folded constant operand (negative and positive ints and floats, written as a
+    literal, a negation and a difference) next to a run-time operand, for every arithmetic operator and both
+    sides: the generated code must keep the constant one operand (`(-2.5) ** x`, not `-2.5 ** x`)."""
+    C, N = J.Const, J.Name
+    consts = [J.Neg(C(2)), J.Neg(C(2.5)), J.Bin("-", C(0.5), C(3)), J.Bin("-", C(1), C(4)), C(2.5), C(3), J.Neg(J.Neg(C(1.5))),
+              J.Bin("/", J.Neg(C(5)), C(2)), J.Bin("*", C(2), J.Neg(C(0.25)))]
+    out = []
+    datas = [{"x": J.vint(2), "y": J.vfloat(0.5)}, {"x": J.vint(3), "y": J.vfloat(-1.5)}, {"x": J.vint(-1), "y": J.vint(0)}]
+    for op in ("+", "-", "*", "/", "//", "%", "**"):
+        for k in consts:
+            for var in ("x", "y"):
+                for e in (J.Bin(op, copy.deepcopy(k), N(var)), J.Bin(op, N(var), copy.deepcopy(k)), J.Neg(J.Bin(op, copy.deepcopy(k), N(var)))):
+                    out.append(J.make_case(start_id + len(out), {"main": J.template([J.Out(e)], False)}, "main", datas))
+    return out
+
+
 def text_of(o):
     return ("err", o["err"]) if o["err"] else ("out", J.expected_text(o["out"]))
 
@@ -152,6 +175,7 @@ def run(ck):
     rnd = random.Random(ck.seed + 8)
     base = jgen.expr_cases(ck.seed * 31 + 8, 130 if quick else 2500, depth=3)
     base += jgen.expr_cases(ck.seed * 31 + 9, 170 if quick else 3500, start_id=len(base) + 1, depth=3, rich=True)
+    base += jgen.expr_cases(ck.seed * 31 + 10, 120 if quick else 2500, start_id=len(base) + 1, depth=3, numeric=True)
     base += jgen.random_cases(ck.seed * 31 + 88, 120 if quick else 3000, start_id=len(base) + 1, features=("loopcontrols", "safe"))
     for c in base:
         c.pop("emit_values", None)
@@ -178,6 +202,10 @@ def run(ck):
             b = inline_case(c, di, len(A) + len(B) + 1)
             if b is not None:
                 B.append(b)
+            if (c["id"] + di) % 2 == 0:
+                b = inline_case(c, di, len(A) + len(B) + 1, rnd)
+                if b is not None:
+                    B.append(b)
     obsB, rB = jrun.spec_results("C08", B, name="B", timeout=3000)
     ck.add_tlc(rB, f"Jinja.tla programs with the data written in as literals ({len(B)})")
     # C08_LiftInvariant on the spec's own observables
@@ -201,6 +229,11 @@ def run(ck):
     ck.add_tlc(rF, f"Jinja.tla mode-sensitive constants in every foldable position ({len(fam)} programs)")
     jrun.conformance(ck, fam, obsF, VARIANTS, fingerprint)
     ck.extra["position_family"] = len(fam)
+    pf = partial_family(len(A) + len(B) + len(fam) + 1)
+    obsP, rP = jrun.spec_results("C08", pf, name="partial", timeout=3000)
+    ck.add_tlc(rP, f"Jinja.tla folded constant operand next to a run-time operand ({len(pf)} programs)")
+    jrun.conformance(ck, pf, obsP, VARIANTS, fingerprint)
+    ck.extra["partial_constant_family"] = len(pf)
     ck.extra["programs"] = len(A)
     ck.extra["constant_rich_programs"] = len(B)
     ck.exhaustive = False
